@@ -122,6 +122,9 @@ pub struct Config
     pub fixed_scripts: Vec<(ActorId, u16, Vec<Op>)>,
     /// Trigger entities prepared for auto-despawn at setup; the harness holds the only signal (`Op::DropSignal`).
     pub auto_ents: Vec<EntId>,
+    /// `(actor, entity)`: the actor's closure captures a clone of the auto-despawn signal of that trigger entity (the
+    /// entity is prepared for auto-despawn at setup); the clone is released when the actor's system state is dropped.
+    pub actor_signals: Vec<(ActorId, EntId)>,
 }
 
 pub fn no_ops() -> AlphabetFn { Arc::new(|_| Vec::new()) }
@@ -148,6 +151,7 @@ impl Config
             update_after_top: false,
             final_gc: false,
             auto_ents: vec![],
+            actor_signals: vec![],
             frame: None,
             final_ops: vec![],
             fixed_scripts: vec![],
